@@ -82,6 +82,17 @@ pub const STARTS: &[Start] = &[
         deep_quick: 4,
     },
     Start {
+        // the side that needs the draw is a queen and a rook down, a capture is on offer next to
+        // the quiet move that repeats: whatever prunes or reorders moves by static value must not
+        // lose the one move that is worth a draw
+        name: "far behind: knight and king shuffle while a pawn can take a rook",
+        start: "3q3k/8/8/8/1r6/P7/8/6NK w - - 0 1",
+        alphabet: &["g1f3", "f3g1", "g1e2", "e2g1", "h8g8", "g8h8", "h8h7", "h7h8", "a3b4", "d8d7", "d7d8"],
+        len_quick: 8,
+        len_thorough: 9,
+        deep_quick: 3,
+    },
+    Start {
         name: "perpetual check: every reply to the queen's checks is forced (single legal move)",
         start: "6k1/5ppp/8/8/7q/8/R5P1/6K1 b - - 0 1",
         alphabet: &["h4e1", "g1h2", "e1h4", "h2g1", "h4h5", "h5h4", "a2a1", "a1a2", "g8f8", "f8g8"],
